@@ -337,6 +337,12 @@ def run(chk, db):
     facts.gate(chk, db, ['nop/utility/sip_hash.h'])
     rules(chk, db)
     witnesses(chk)
+    # the hash reaches the wire through the writers: at compile time through the constexpr writer's 64-bit byte lanes
+    from . import c17
+    from .. import witness
+    chk.rule('L', 'ConstexprBufferWriter::WriteElement stores little-endian byte lanes (all 8 of a 64-bit hash)', minimum=8)
+    c17.lanes(chk, db, 'L')
+    witness.run(chk, 'c03_bytes.cpp', 'WB', 'compile-time witnesses: constexpr serialisation (incl. a table with its hash) equals the documented bytes', minimum=25)
     chk.explanation = (
         'Term-domain evaluation of SipHash::Compute (for BlockReader<char> and BlockReader<unsigned char>) with its helpers inlined, '
         'compared segment by segment (init, loop header, compression step, 8 tail residues, finalisation) with reference SipHash-2-4 '
